@@ -132,3 +132,83 @@ impl Component<CondProblem> for CountBody {
         Ok(())
     }
 }
+
+/// What the probes of a nested loop/scope program saw, in order: (node id, kind, visible
+/// iteration counter or -1, visible progress of less-than-n(iterations) if any).  `fuel` bounds
+/// the number of observations so that a program that never ends becomes data ("runaway").
+#[derive(Tid, Default)]
+pub struct NestLog {
+    pub ev: Vec<(i64, &'static str, i64, Option<f64>)>,
+    pub fuel: i64,
+}
+impl CustomState<'_> for NestLog {}
+
+type IterProgress = mahf::state::common::Progress<mahf::lens::ValueOf<mahf::state::common::Iterations>>;
+
+fn observe(state: &mut State<CondProblem>, id: i64, kind: &'static str) -> ExecResult<()> {
+    let it = state.try_get_value::<mahf::state::common::Iterations>().map(|v| v as i64).unwrap_or(-1);
+    let pr = state.try_get_value::<IterProgress>().ok();
+    let mut log = state.borrow_mut::<NestLog>();
+    log.ev.push((id, kind, it, pr));
+    log.fuel -= 1;
+    if log.fuel < 0 {
+        return Err(eyre::eyre!("runaway"));
+    }
+    Ok(())
+}
+
+/// Component that reports the counter and progress visible where it stands (kinds `tick`, `in`, `out`).
+#[derive(Clone, Serialize)]
+pub struct Probe {
+    pub id: i64,
+    pub kind: &'static str,
+}
+
+impl Component<CondProblem> for Probe {
+    fn execute(&self, _problem: &CondProblem, state: &mut State<CondProblem>) -> ExecResult<()> {
+        observe(state, self.id, self.kind)
+    }
+}
+
+/// Component that inserts `Iterations(v)` into the scope it runs in.
+#[derive(Clone, Serialize)]
+pub struct SetIter {
+    pub v: u32,
+}
+
+impl Component<CondProblem> for SetIter {
+    fn execute(&self, _problem: &CondProblem, state: &mut State<CondProblem>) -> ExecResult<()> {
+        state.insert(mahf::state::common::Iterations(self.v));
+        Ok(())
+    }
+}
+
+/// The real condition of a loop, reporting what is visible right after each of its evaluations.
+#[derive(Serialize)]
+#[serde(bound = "")]
+pub struct NestTests {
+    pub id: i64,
+    pub inner: Box<dyn Condition<CondProblem>>,
+}
+
+impl Clone for NestTests {
+    fn clone(&self) -> Self {
+        Self { id: self.id, inner: self.inner.clone() }
+    }
+}
+
+impl Condition<CondProblem> for NestTests {
+    fn init(&self, problem: &CondProblem, state: &mut State<CondProblem>) -> ExecResult<()> {
+        self.inner.init(problem, state)
+    }
+
+    fn require(&self, problem: &CondProblem, state_req: &mahf::state::StateReq<CondProblem>) -> ExecResult<()> {
+        self.inner.require(problem, state_req)
+    }
+
+    fn evaluate(&self, problem: &CondProblem, state: &mut State<CondProblem>) -> ExecResult<bool> {
+        let reply = self.inner.evaluate(problem, state)?;
+        observe(state, self.id, "test")?;
+        Ok(reply)
+    }
+}
